@@ -151,7 +151,7 @@ def run(tier, seed):
             total["same"] += 1
             continue
         total["diff"] += 1
-        if m in reported:
+        if m in reported or nviol >= 6:
             continue
         k = base.attribute(ck, c, gvh, oracle)
         if k:
